@@ -74,6 +74,13 @@ def run(ctx):
         R = Reach(F, r["inst"])
         ctx.floor("reachable /repo instances", len(R.local), 80, cfg=cfg)
         defs = {i["def"] for i in R.local}
+        # rustc prints an impl method as `<T as Trait>::m` or as `module::<impl Trait for T>::m` depending on where the impl sits
+        # relative to T; the canonical name is the first form, from the impl's trait reference
+        for i in R.local:
+            g = hir_fn_for(F, i)
+            tr = ((g or {}).get("impl") or {}).get("trait_ref")
+            if g is not None and tr:
+                defs.add("%s::%s" % (tr, g["name"]))
         t_w, s_w, t_fn, f_fn, p_fn = c13.names(F)
         role = {"webauthn::deserialize_from_str_and_truncate": t_w, "webauthn::deserialize_from_str_and_skip_if_too_long": s_w, "webauthn::truncate": t_fn,
                 "webauthn::floor_char_boundary": f_fn, "webauthn::is_utf8_char_boundary": p_fn}
